@@ -206,7 +206,7 @@ class ServiceDiscovery(object):
 
                 for tid, sap in rcvd_pdu.sdres:
                     try:
-                        name = self.sent[tid]
+                        name = self.sent.pop(tid)
                     except KeyError:
                         continue
                     log.debug("resolved %r to remote addr %d", name, sap)
